@@ -26,7 +26,7 @@ Words32 == << <<0, 0, 0, 65>>, <<0, 0, 215, 255>>, <<0, 0, 216, 0>>, <<0, 0, 220
 RECURSIVE SetToSeq(_)
 SetToSeq(S) == IF S = {} THEN <<>> ELSE LET x == CHOOSE y \in S : \A z \in S : y <= z IN <<x>> \o SetToSeq(S \ {x})
 Plan == [plan |-> [encs |-> EncList, reps8 |-> SetToSeq(Reps), reps8long |-> SetToSeq(RepsLong), units16 |-> Units16, words32 |-> Words32,
-                   sense |-> SetToSeq(SenseBytes), canon |-> <<Ucs4BPre, Ucs4LPre, U16BPre, U16LPre, AsciiPre \o <<118>>, EbcdicDecl \o <<165>>>>,
+                   sense |-> SetToSeq(SenseBytes), sense4 |-> SetToSeq(SenseBytes \ {32, 109, 111, 148, 167}), canon |-> <<Ucs4BPre, Ucs4LPre, U16BPre, U16LPre, AsciiPre \o <<118>>, EbcdicDecl \o <<165>>>>,
                    boundary |-> SetToSeq(BoundaryCps)]]
 
 ---------------------------------------------------------------------------
